@@ -1,7 +1,6 @@
-(* C07 Tests: (1) computed witnesses for the clauses of the property that are FALSE of the model (each is a
-   concrete schedule, replayed by vm_compute); (2) exhaustive exploration of SMALL configurations as a test of
-   stuck-freedom for families beyond the clean one (cancels, context, slow mappers, deliverable panics).
-   The explorations are tests over the listed configurations only, not theorems about all configurations. *)
+(* C07 Tests: computed witnesses for the clauses of the property that are FALSE of the model: each is a concrete
+   schedule (found with Explore.explore) replayed here step by step.  The exhaustive small-bound explorations are
+   in ExploreTests.v (kept out of the cone of Props.v: they are tests, and coqchk has no VM to re-run them). *)
 From God Require Import Base.Prelude C07.Model C07.Explore.
 
 Definition fuel : nat := N.to_nat 400000.
@@ -76,77 +75,7 @@ Proof.
   vm_compute in E. inversion E; subst; clear E. repeat split; reflexivity.
 Qed.
 
-(* ---------------------------------------------------------------- exhaustive small-bound tests *)
-Definition is_err (s : state) : bool := match c s with CDone (OErr _) => true | _ => false end.
-Definition is_panic (s : state) : bool := match c s with CDone (OPanic _) => true | _ => false end.
-Definition outcome_is (o : outcome) (s : state) : bool :=
-  match c s, o with
-  | CDone (ORet a), ORet b => Nat.eqb a b
-  | CDone ONoOutput, ONoOutput => true
-  | CDone OPanicTwice, OPanicTwice => true
-  | _, _ => false
-  end.
-
-(* clean: 2 items x 2 workers, range reducer, one result *)
-Definition cf_t1 : cfg := mkcfg 2 [0; 1] None (fun _ => [AWrite 1]) None [RWrite 7] false.
-Example test_clean_2x2 :
-  explore_ok cf_t1 false (fun s => outcome_is (ORet 7) s && Nat.eqb (List.length (recvd s)) 2) fuel = true.
-Proof. vm_compute. reflexivity. Qed.
-
-(* clean: 3 items x 1 worker, reducer stops after 1 value and writes twice: the caller panics *)
-Definition cf_t2 : cfg := mkcfg 1 [0; 1; 2] None (fun _ => [AWrite 1; AWrite 2]) (Some 1) [RWrite 7; RWrite 8] false.
-Example test_clean_stop_early_twice : explore_ok cf_t2 false (outcome_is OPanicTwice) fuel = true.
-Proof. vm_compute. reflexivity. Qed.
-
-(* cancels (two cancelling mappers, one of them with nil, writes around the cancel) and a mapper that only
-   returns after the call has returned: every maximal run ends with all goroutines exited and an error outcome *)
-Definition cf_t3 : cfg :=
-  mkcfg 2 [0; 1; 2] None
-        (fun i => match i with 0 => [AWrite 1; ACancel (Some 5); AWrite 2] | 1 => [ACancel None] | _ => [AWaitRet; AWrite 1] end)
-        None [RWrite 7] false.
-Example test_cancel_waitret : explore_ok cf_t3 false is_err fuel = true.
-Proof. vm_compute. reflexivity. Qed.
-
-(* double cancel in one mapper, reducer stops early without writing *)
-Definition cf_t4 : cfg :=
-  mkcfg 1 [0; 1] None (fun i => match i with 0 => [ACancel (Some 5); ACancel (Some 6)] | _ => [AWrite 1] end) (Some 1) [] false.
-Example test_double_cancel :
-  explore_ok cf_t4 false (fun s => match c s with CDone (OErr (EUser 5)) => true | _ => false end) fuel = true.
-Proof. vm_compute. reflexivity. Qed.
-
-(* the context may become done at any moment (environment step), no panics, reducer writes nothing
-   (with a reducer write the race of witness W3 appears: see test_ctx_write_race below): no stuck state *)
-Definition cf_t5 : cfg := mkcfg 2 [0; 1] None (fun _ => [AWrite 1]) None [] false.
-Example test_ctx_any_time : explore_ok cf_t5 true (fun _ => true) fuel = true.
-Proof. vm_compute. reflexivity. Qed.
-
-(* ... and with a reducer write the exploration does find the stuck state (finish racing with the reducer's send) *)
-Definition cf_t5w : cfg := mkcfg 2 [0; 1] None (fun _ => [AWrite 1]) None [RWrite 7] false.
-Example test_ctx_write_race :
-  match bad (explore cf_t5w true (fun _ => true) fuel) with
-  | Some (_, s) => match r s with RPSend PSendClosed => negb (final s) | _ => false end
-  | None => false
-  end = true.
-Proof. vm_compute. reflexivity. Qed.
-
-(* context done before the call, plus a cancelling mapper *)
-Definition cf_t6 : cfg :=
-  mkcfg 2 [0; 1] None (fun i => match i with 0 => [AWrite 1; ACancel (Some 5)] | _ => [AWrite 1] end) None [] true.
-Example test_ctx_pre_cancel : explore_ok cf_t6 false (fun _ => true) fuel = true.
-Proof. vm_compute. reflexivity. Qed.
-
-(* deliverable panics: two panicking mappers, reducer stops early without writing: one of them is re-raised *)
-Definition cf_t7 : cfg :=
-  mkcfg 2 [0; 1] None (fun i => match i with 0 => [AWrite 1; APanic 4] | _ => [APanic 5] end) (Some 1) [] false.
-Example test_panics_reraised : explore_ok cf_t7 false is_panic fuel = true.
-Proof. vm_compute. reflexivity. Qed.
-
-(* a generator panic alone is re-raised *)
-Definition cf_t7g : cfg := mkcfg 2 [0; 1] (Some 8) (fun _ => [AWrite 1]) None [RWrite 7] false.
-Example test_generator_panic_reraised : explore_ok cf_t7g false is_panic fuel = true.
-Proof. vm_compute. reflexivity. Qed.
-
-(* W5 (found by this exploration): generator panic + mapper panic. If the generator wins the CAS, the mapper's
+(* W5 (found by exploration): generator panic + mapper panic. If the generator wins the CAS, the mapper's
    `failed` makes X leave its loop without the source being closed; the collector closes, the reducer finishes,
    output closes, and a caller whose select sees both panicChan and the closed output may take the latter:
    ErrReduceNoOutput, the generator goroutine and X (drain(source)) stay blocked for ever. *)
@@ -165,8 +94,3 @@ Proof.
   vm_compute in E. inversion E; subst; clear E.
   repeat split; try reflexivity. apply stuck_spec. vm_compute. reflexivity.
 Qed.
-
-(* reducer panics after consuming everything, nothing written before *)
-Definition cf_t8 : cfg := mkcfg 1 [0; 1] None (fun _ => [AWrite 1]) None [RPanic 9] false.
-Example test_reducer_panic : explore_ok cf_t8 false is_panic fuel = true.
-Proof. vm_compute. reflexivity. Qed.
